@@ -20,6 +20,11 @@ SYMS = ['prose', '', '    indented prose', '>>> x = 1', '>>> f(', '... 2)', '...
         '>>> # xdoctest: +SKIP', '    ... z', '>>> @dec', '>>> def f(): pass', '>>> x; y', '\t>>> t = 1']
 
 
+EXTRA_SYMS = ['>>>\tq = 1', '>>> \xe9 = 1', '\xa0>>> n = 1', '>>> w = 1\x0c', 'prose\x0cmore', '            >>> deep = 1', '            deep want',
+              '>>> long_name_' + 'x' * 180 + ' = 1', 'w' * 200, '...   ', '>>>  two_blanks = 1', '>>> a = 1  \t ', '\x1c', '>>> b = "\x85"', ' \t ', '>>> c = 1\r',
+              '>>> # xdoctest: +REQUIRES(module:\xe9)', '... # only a comment', '>>> d = (1,  # comment', '...      2)']
+
+
 # ---------------------------------------------------------------------------
 # model-independent predicates on the implementation's result
 # ---------------------------------------------------------------------------
@@ -216,6 +221,11 @@ def run(ctx):
         rng0 = ctx.rng('four-line-sample')
         docs += ['\n'.join(rng0.choice(SYMS) for _ in range(4)) for _ in range(30000)]
         docs += ['\n'.join(rng0.choice(SYMS) for _ in range(rng0.randint(5, 9))) for _ in range(10000)]
+    # unusual but legal lines (other whitespace characters, long lines, deep indentation, non-ASCII) and long docstrings
+    rng1 = ctx.rng('unusual')
+    more = SYMS + EXTRA_SYMS
+    docs += ['\n'.join(rng1.choice(more) for _ in range(rng1.randint(2, 8))) for _ in range(3000 if quick else 40000)]
+    docs += ['\n'.join(rng1.choice(SYMS) for _ in range(rng1.randint(10, 130))) for _ in range(150 if quick else 2000)]
     chunks = [docs[i:i + 400] for i in range(0, len(docs), 400)]
     results = [r for ch in common.pmap(_worker, chunks) for r in ch]
     nparsed = 0
